@@ -56,9 +56,16 @@ func openStamp(path string) (*stampDb, error) {
 }
 
 // writeState rewrites the database into state(g) in one transaction. first=true creates the entities.
-func (s *stampDb) writeState(g int64) error {
+func (s *stampDb) writeState(g int64) error { return s.writeStateVia(g, false) }
+
+// writeStateVia writes state(g) through Db.Update or Db.Batch.
+func (s *stampDb) writeStateVia(g int64, batch bool) error {
 	cells, hubs := s.sc.St("cells"), s.sc.St("hubs")
-	return s.db.Update(nil, func(ctx boltz.MutateContext) error {
+	run := s.db.Update
+	if batch {
+		run = s.db.Batch
+	}
+	return run(nil, func(ctx boltz.MutateContext) error {
 		tx := ctx.Tx()
 		for h := 0; h < 2; h++ {
 			id := fmt.Sprintf("h%d", h)
